@@ -30,6 +30,7 @@ def run(ck):
     ck.rule("C05.R3", "slot cleared only by the last CloseGuard of a closing span (after on_close)", floor=6)
     ck.rule("C05.R4", "Clear resets every stored field not overwritten at creation", floor=5)
     ck.rule("C05.R5", "the registry's own references are released through the owning stack", floor=2)
+    ck.rule("C05.R6", "the entered reference is released by exactly the stack entry that took it (push/pop discipline, as C06.R2)", floor=3)
     for cfg in configs:
         F = Facts(cfg)
         ck.configs.append(cfg)
@@ -39,6 +40,12 @@ def run(ck):
         r3(ck, F)
         r4(ck, F)
         r5(ck, F)
+        if cfg == "default":
+            # enter takes a reference iff push() says "first entry of this id on the thread"; exit releases one iff pop()
+            # says it removed that non-duplicate entry. Both answers are only right while the stack keeps its order:
+            # an order-destroying removal lets a duplicate entry (which holds no reference) outlive the original.
+            from rules import C06
+            C06.r2(ck, F, rid="C05.R6", push_pop_only=True)
     ck.tag = ""
 
 
